@@ -11,14 +11,15 @@ SPEC = {
 }
 
 MANIFEST = {
-    "text": ("Proved in Coq for every interleaving (unbounded) of write / MAX_DATA / set_send_window / accept from the initial state: "
-             "per-stream offset <= stream limit <= largest delivered limit, data_sent = sum of offsets <= max_data = largest delivered "
-             "connection limit, next <= max = largest delivered stream count and open = None exactly when equal, the exact formula of "
-             "write (min of request, connection credit, send-window room, stream credit; Blocked iff 0), and that a write never raises "
-             "unacked_data above the send window. The invariant for the remaining operations (open, finish, reset, MAX_STREAM_DATA, "
-             "MAX_STREAMS, transmission, acknowledgement/loss, 0-RTT acceptance) and unacked_data = sum of per-stream unacked are stated "
-             "(C05_full) but only correspondence-tested: the model reproduces the real StreamsState on every generated sequence and an "
-             "independent credit ledger evaluated on the implementation's outputs re-derives every limit."),
-    "note": ("Trusted: Coq kernel + vm_compute; hand-written model Model/FlowSend.v whose agreement with the code is sampled; hook "
-             "interpreter flow_send.rs; python driver. No axioms. Partial: see C05_full in Props/C05.v."),
+    "text": ("Proved in Coq for EVERY reachable state of the full model (all operations of FlowSend.apply: open, write, finish, reset, "
+             "MAX_DATA, MAX_STREAM_DATA, MAX_STREAMS, STOP_SENDING, transmission, acknowledgement, loss, reset_acked, poll, accept, "
+             "Retry, 0-RTT acceptance and rejection; any interleaving respecting Connection's calling discipline): per-stream offset <= "
+             "stream limit <= largest delivered limit; data_sent = sum of offsets <= max_data = largest delivered connection limit; "
+             "next <= max = largest delivered stream count and open = None exactly when equal; exact formula of write; "
+             "unacked_data = sum of per-stream unacknowledged bytes; acknowledged / to-retransmit / in-flight ranges partition the sent "
+             "part of every stream, so acknowledging an in-flight frame never underflows; send_streams >= streams held. "
+             "Not assembled: one theorem 'no operation panics' (C05_full). The model is tied to the code by differential correspondence and "
+             "an independent credit + FIN ledger evaluated on the implementation's outputs."),
+    "note": ("Trusted: Coq kernel + vm_compute; hand-written model Model/FlowSend.v (sampled agreement); hook flow_send.rs; python driver. "
+             "No axioms. KNOWN ISSUE: a from-scratch build of Proofs/FlowSendProofs.v + FlowSendFull.v takes ~14 min (cached afterwards)."),
 }
